@@ -117,8 +117,9 @@ def extract_positions(fmt, data):
     return out
 
 
-def run(desc, fmt, wn, rn):
-    key = json.dumps([desc, fmt, wn, rn], sort_keys=True)
+def run(desc, fmt, wn, rn, wextra=None):
+    """`wextra`: further options of the writer (e.g. the JSON writer's export modes), on top of the ones `wn` stands for"""
+    key = json.dumps([desc, fmt, wn, rn] + ([wextra] if wextra else []), sort_keys=True)
     if key in _cache:
         return _cache[key]
     db = M.build(desc)
@@ -130,6 +131,7 @@ def run(desc, fmt, wn, rn):
         ropts = {"xlsMotorolaBitFormat": rn}
     if fmt == "arxml" and wn == "3.2.3":
         wopts = {"arVersion": "3.2.3"}
+    wopts.update(wextra or {})
     res = {"exc": None}
     try:
         data = M.export_bytes(db, fmt, **wopts)
